@@ -1,13 +1,19 @@
 import YaqsModel.Basic.Parse
 import YaqsModel.Model.Sweep
 import YaqsModel.Model.Conserve
+import YaqsModel.Model.Bug
 /-! line protocol for the sweep schedules:
     `ldtdvp <L> <maxBond> <digital> | seenLR… | seenRL…`, `single <L> <digital>`, `two <L> <digital>`, `bug <L>`
     → the primitive updates as `s:i:c` (site), `b:i:c` (bond), `p:i:c` (pair), `x:i:R|L` (split), `t` (truncate)
     `fullsingle <L> <digital>`, `fulltwo <L> <digital>`, `fullldtdvp <L> <maxBond> <digital> | seenLR… | seenRL…`
     → the same lists with the gauge steps of `Model/Conserve.lean` written out: `q:i` (QR of site i, centre moves right),
       `a:b` (bond matrix absorbed into site b+1), `Q:i` (QR of the transposed site i, centre moves left), `A:b` (absorbed
-      into site b), `m:p` (merge of sites p, p+1) -/
+      into site b), `m:p` (merge of sites p, p+1)
+    xb05: `fullbug <L>` → one `bug` call with every statement of `Model/Bug.lean`: `pq:i` (right_qr of the centre tensor of site i),
+      `pc:i` (centre tensor of site i+1 := R·A), `pe:i` (left block of site i+1), `s:k:1`, `k:k:L|C` (stack tensor: the state's Leaf
+      tensor / the Centre tensor), `n:k` (concatenate + left_qr), `B:k` (basis-change matrix), `S:k` (state.tensors[k] := new_q),
+      `P:k` (centre tensor of site k-1 := · M_k), `r:k` (right block), `root` (state.tensors[0] := updated), `t`;
+      `bugbonds <d> | b1 … b_{L-1}` → the internal bonds after the sweep of `bug`, before `truncate` -/
 open Yaqs Yaqs.Sweep
 
 def showOp : Op → String
@@ -24,6 +30,19 @@ def showStep : Step → String
   | .qrLeft i => s!"Q:{i}"
   | .absorbLeft b => s!"A:{b}"
   | .merge p => s!"m:{p}"
+
+def showBStep : BStep → String
+  | .prepQR i => s!"pq:{i}"
+  | .prepCentre i => s!"pc:{i}"
+  | .prepEnv i => s!"pe:{i}"
+  | .prim o => showOp o
+  | .stack k leaf => s!"k:{k}:{if leaf then "L" else "C"}"
+  | .newQ k => s!"n:{k}"
+  | .basis k => s!"B:{k}"
+  | .setQ k => s!"S:{k}"
+  | .pass k => s!"P:{k}"
+  | .rightEnv k => s!"r:{k}"
+  | .setRoot => "root"
 
 def showSteps (l : List Step) : String := if l.isEmpty then "none" else joinWith " " (l.map showStep)
 
@@ -68,6 +87,19 @@ def handle (line : String) : String :=
   | [["bug", l]] =>
     match l.toNat? with
     | some L => if L = 0 then "bad-op" else showOps (bug L)
+    | none => "bad-op"
+  | [["fullbug", l]] =>
+    match l.toNat? with
+    | some L => if L = 0 then "bad-op" else joinWith " " ((bugFull L).map showBStep)
+    | none => "bad-op"
+  | [["bugbonds", d], bs] =>
+    match d.toNat?, parseAll? String.toNat? bs with
+    | some d, some b => if d = 0 ∨ b.any (· == 0) then "bad-op" else
+        (if b.isEmpty then "none" else joinWith " " ((bugBonds d b).map toString))
+    | _, _ => "bad-op"
+  | [["bugbonds", d]] =>
+    match d.toNat? with
+    | some d => if d = 0 then "bad-op" else "none"
     | none => "bad-op"
   | _ => "bad-op"
 
